@@ -15,7 +15,8 @@ import (
 
 type c37 struct {
 	v         *vRun
-	delivered map[int]int // chunk -> handle of the accepted block that delivered it
+	delivered map[int]int   // chunk -> handle of the accepted block that delivered it
+	delivExp  map[int]int64 // chunk -> expiry of the certificate it was delivered with
 }
 
 // extendsAccepted: the ancestry of block h passes through the last accepted block
@@ -49,12 +50,21 @@ func (o *c37) check(who string, h int, line string) {
 			o.v.r.Violation(who+"-expired-cert", "block %d (timestamp %d) references chunk %d with expiry %d: %s", h, vb.blk.Timestamp, i, e, line)
 		}
 	}
+	exp := map[int]int64{}
+	for k, i := range vb.certIdx {
+		exp[i] = vb.blk.ChunkCerts[k].Expiry
+	}
 	a := vb.parent
 	for k := 0; k < 10000 && h != 0; k++ {
 		ab := s.blocks[a]
-		for _, i := range ab.certIdx {
+		for ka, i := range ab.certIdx {
 			if seen[i] {
-				o.v.r.Violation(who+"-ancestor-dup", "block %d references chunk %d already referenced by its ancestor %d: %s", h, i, a, line)
+				key := who + "-ancestor-dup"
+				if ab.blk.ChunkCerts[ka].Expiry != exp[i] {
+					// not a re-used certificate: a second certificate over a reference with another expiry
+					key += "-certificate-with-different-expiry"
+				}
+				o.v.r.Violation(key, "block %d references chunk %d already referenced by its ancestor %d: %s", h, i, a, line)
 				seen[i] = false
 			}
 		}
@@ -74,7 +84,20 @@ func (o *c37) step(line string) string {
 	switch f[0] {
 	case "cfg", "reset":
 		o.delivered = map[int]int{}
+		o.delivExp = map[int]int64{}
 		return o.v.do("%s", line)
+	case "sigreq":
+		out := o.v.do("%s", line)
+		if len(f) == 4 && out == "signed" {
+			i, _ := strconv.Atoi(f[1])
+			e, _ := strconv.Atoi(f[2])
+			j, _ := strconv.Atoi(f[3])
+			if c := s.u.get(j); i != j || (c != nil && int64(e) != c.chunk.Expiry) {
+				o.v.r.Violation("validator-signs-reference-not-matching-chunk",
+					"signed the reference (chunk %d, expiry %d) with chunk %d (expiry %d) as justification", i, e, j, c.chunk.Expiry)
+			}
+		}
+		return out
 	case "verify":
 		out := o.v.do("%s", line)
 		h, _ := strconv.Atoi(f[1])
@@ -97,15 +120,24 @@ func (o *c37) step(line string) string {
 		inOrder := vb != nil && vb.verified && vb.parent == s.lastH && h != s.lastH
 		out := o.v.do("%s", line)
 		if strings.HasPrefix(out, "ok") && inOrder {
-			for _, w := range strings.Split(strings.TrimPrefix(out, "ok "), ",") {
+			for k, w := range strings.Split(strings.TrimPrefix(out, "ok "), ",") {
 				i, err := strconv.Atoi(w)
 				if err != nil {
 					continue
 				}
+				var e int64 = -1
+				if k < len(vb.blk.ChunkCerts) {
+					e = vb.blk.ChunkCerts[k].Expiry
+				}
 				if prev, ok := o.delivered[i]; ok {
-					o.v.r.Violation("chunk-delivered-twice", "chunk %d delivered by accepted block %d and again by its descendant %d", i, prev, h)
+					key := "chunk-delivered-twice"
+					if o.delivExp[i] != e {
+						key += "-by-certificates-with-different-expiry"
+					}
+					o.v.r.Violation(key, "chunk %d delivered by accepted block %d (certificate expiry %d) and again by its descendant %d (certificate expiry %d)", i, prev, o.delivExp[i], h, e)
 				}
 				o.delivered[i] = h
+				o.delivExp[i] = e
 			}
 		}
 		return out
@@ -116,7 +148,7 @@ func (o *c37) step(line string) string {
 func TestVerifC37(t *testing.T) {
 	v, lines := vStart(t, "C37")
 	defer v.r.Finish()
-	o := &c37{v: v, delivered: map[int]int{}}
+	o := &c37{v: v, delivered: map[int]int{}, delivExp: map[int]int64{}}
 	if lines != nil {
 		for _, l := range lines {
 			o.step(l)
@@ -138,8 +170,26 @@ func TestVerifC37(t *testing.T) {
 		"mk 3 2 10 3 4", "verify 3 2", "accept 1", "accept 2", "verify 3 2", "mk 4 2 10 3 4 2", "verify 4 2", "build 5 2 10",
 		vCfg(4, 1000000), "addlocal 4 c", "addlocal 2 c", "mk 1 0 6 1 4", "verify 1 0", "mk 2 1 7 2 2x", "verify 2 1",
 		"mk 3 1 7 2 2", "verify 3 1", "mk 4 3 10 3 4", "verify 4 3", "mk 5 3 11 3 4", "verify 5 3",
+		// a block on an unverified parent: the chain index has no parent
+		vCfg(8, 1000000), "addlocal 1 c", "mk 1 0 0 1 1", "verify 1 0", "mk 2 1 2 2 1", "verify 2 1",
+		// validators sign references that do not match the chunk they are shown
+		vCfg(40, 1000000), "sigreq 2 6 2", "sigreq 3 13 3", "sigreq 5 14 6", "abs",
 	} {
 		o.step(l)
+	}
+	if v.sut.u.forged[1] != nil {
+		// known finding: chunk 1 (expiry 3) is certified a second time over a reference with expiry 20;
+		// after its first inclusion left the accepted set the second certificate verifies and the
+		// chunk is delivered twice
+		for _, l := range []string{
+			vCfg(5, 1000000), "addlocal 1 c", "addlocal 5 c", "mk 1 0 2 1 1", "verify 1 0", "accept 1",
+			"mk 2 1 12 2 5", "verify 2 1", "accept 2", "addlocal 1 c", "mk 3 2 16 3 1f", "verify 3 2", "accept 3",
+			// the same with the first inclusion still processing
+			vCfg(5, 1000000), "addlocal 1 c", "addlocal 5 c", "mk 1 0 2 1 1", "verify 1 0", "mk 2 1 12 2 5", "verify 2 1",
+			"mk 3 2 16 3 1f", "verify 3 2",
+		} {
+			o.step(l)
+		}
 	}
 	nseq := v.r.N(160, 4000)
 	for n := 0; n < nseq; n++ {
@@ -153,6 +203,7 @@ func TestVerifC37(t *testing.T) {
 		type bi struct{ h, parent, height, ts int }
 		blocks := map[int]bi{0: {}}
 		verified := []int{0}
+		var unverified []int
 		accTip, procTip := 0, 0
 		var included []int
 		next := 1
@@ -166,6 +217,9 @@ func TestVerifC37(t *testing.T) {
 					par = accTip
 				} else if y == 3 {
 					par = verified[rng.Intn(len(verified))]
+				}
+				if len(unverified) > 0 && rng.Chance(4) {
+					par = unverified[rng.Intn(len(unverified))] // Verify cannot find the parent in the index
 				}
 				pb := blocks[par]
 				ts := pb.ts + 1 + rng.Intn(3)
@@ -196,6 +250,8 @@ func TestVerifC37(t *testing.T) {
 					tok := strconv.Itoa(i)
 					if rng.Chance(4) {
 						tok += "x"
+					} else if v.sut.u.forged[i] != nil && rng.Chance(40) {
+						tok += "f"
 					}
 					certs = append(certs, tok)
 					idx = append(idx, i)
@@ -207,7 +263,12 @@ func TestVerifC37(t *testing.T) {
 				if rng.Chance(3) {
 					vp = verified[rng.Intn(len(verified))]
 				}
-				if o.step(fmt.Sprintf("verify %d %d", h, vp)) == "ok" {
+				if out := o.step(fmt.Sprintf("verify %d %d", h, vp)); out != "ok" {
+					if out == "sig" || out == "dup" || out == "expired" || out == "future" {
+						blocks[h] = bi{h, par, ht, ts}
+						unverified = append(unverified, h)
+					}
+				} else {
 					blocks[h] = bi{h, par, ht, ts}
 					verified = append(verified, h)
 					included = append(included, idx...)
@@ -269,7 +330,19 @@ func TestVerifC37(t *testing.T) {
 					break
 				}
 			default:
-				o.step("gather")
+				if rng.Bool() {
+					o.step("gather")
+				} else {
+					i, j := 1+rng.Intn(vValid), 1+rng.Intn(len(v.sut.u.chunks))
+					if rng.Chance(40) {
+						j = i
+					}
+					e := v.sut.u.get(i).chunk.Expiry
+					if rng.Chance(40) {
+						e += int64(1 + rng.Intn(9))
+					}
+					o.step(fmt.Sprintf("sigreq %d %d %d", i, e, j))
+				}
 			}
 			if v.sut.poisoned {
 				break
